@@ -13,6 +13,8 @@ package extra25519
 //@   ensures ret1 ==> len(ret0) == 32 && ret0 != nil
 // C14: conversion is refused for every encoding that matches a table row (ignoring the sign bit)
 //@   ensures (exists i int :: 0 <= i && i < 7 && agree(edBytes, i)) ==> !ret1
+// ... and for every input that is not the encoding of a curve point
+//@   ensures !onCurve(edBytes) ==> !ret1
 //@   ensures !ret1 ==> ret0 == nil
 //@   fresh ret0
 
